@@ -115,3 +115,13 @@ long syscall(long nr, ...) {
     if (nr == 425 /* io_uring_setup */) { const char *v = getenv("WALRUS_FAULT_URING"); if (v && v[0] == '1') { errno = ENOSYS; return -1; } }
     return real(nr, a, b, c, d, e, f);
 }
+
+/* wall clock: WALRUS_FAKE_TIME_MS=<ms since epoch> pins CLOCK_REALTIME (SystemTime::now) to that instant */
+#include <time.h>
+int clock_gettime(clockid_t id, struct timespec *ts) {
+    static int (*real)(clockid_t, struct timespec *) = 0;
+    if (!real) real = dlsym(RTLD_NEXT, "clock_gettime");
+    const char *v = getenv("WALRUS_FAKE_TIME_MS");
+    if (v && id == CLOCK_REALTIME) { long long ms = atoll(v); ts->tv_sec = ms / 1000; ts->tv_nsec = (ms % 1000) * 1000000L; return 0; }
+    return real(id, ts);
+}
